@@ -549,13 +549,27 @@ def _np_elementwise(mode):
             if isinstance(x, np.ndarray):
                 out = np.empty(x.shape, dtype=object)
                 for idx in np.ndindex(*x.shape):
-                    out[idx] = e1(x[idx])
+                    out[idx] = _memo_e1(mode, e1, x[idx])
                 return out
-            return e1(x)
+            return _memo_e1(mode, e1, x)
         if _env._is_sym(x) and mode == "ceil":
             return _sym_ceil(x)
         return real(x, *a, **kw)
     return f
+
+
+def _memo_e1(mode, fn, x):
+    """round/floor are functions: the same (simplified) argument on the same path gets the same integer symbol"""
+    c = sym.CTX
+    if c is None or isinstance(x, SI) or not isinstance(x, S) or x.is_concrete():
+        return fn(x)
+    memo = getattr(c, "_int_memo", None)
+    if memo is None:
+        memo = c._int_memo = {}
+    key = (mode, z3.simplify(sym.zr(x.re), som=True).sexpr())
+    if key not in memo:
+        memo[key] = fn(x)
+    return memo[key]
 
 
 def _sym_ceil(x):
